@@ -107,4 +107,18 @@ theorem C13_cache_total (c : Content) (hn : WFnames c) (hs : Sortable c.availabl
     ∃ cache, createCache c = .ok cache :=
   createCache_total c hn hs
 
+/-! ### non-vacuity of "computed once at time zero … even reaction rates" -/
+
+/-- an initial assignment on a variable that names a reaction rate, and a parameter assigned from
+    that variable: `r = 2·x = 4` at the declared state, `y(0) = 3·r = 12`, `q = y + 1 = 13` -/
+def exRate : Content :=
+  { vars := [("y", .ia ⟨["r"], fun v => 3 * v.getD 0 0⟩), ("x", .plain 2)],
+    pars := [("q", .ia ⟨["y"], fun v => v.getD 0 0 + 1⟩)],
+    rxns := [("r", ⟨⟨["x"], fun v => 2 * v.getD 0 0⟩, [("x", .num (-1))]⟩)] }
+
+example : WFnames exRate := ⟨by decide +kernel, by intro kv h; cases h⟩
+example : (createCache exRate).toOption.map (·.init) = some [("y", 12), ("x", 2)] := by
+  decide +kernel
+example : (createCache exRate).toOption.map (·.allPars) = some [("q", 13)] := by decide +kernel
+
 end Mxl.C13
